@@ -124,6 +124,10 @@ func (s *State) assume(f string) {
 	if f == "true" {
 		return
 	}
+	if strings.Contains(f, "!b") && !strings.Contains(f, "((") {
+		// a lazily generated instance that mentions a bound variable of a contract quantifier: not expressible outside it
+		return
+	}
 	s.pc = append(s.pc, f)
 }
 
